@@ -175,6 +175,7 @@ pub fn build(p: P) -> Scenario<Arc<CS>> {
             max_nest: 0,
         });
     }
+    DROP_PREFIX_C06.store(p.prop == "C06", Ordering::SeqCst);
     let flood = p.flood;
     let pp_prop = p.prop;
     let prop = p.prop;
@@ -310,17 +311,19 @@ fn check_drop_sites(log: &[Ev]) -> Result<(), String> {
     Ok(())
 }
 
-/// C07: exactly-once drops
+/// C07 (and, for a value destroyed twice, C06's "nothing duplicated"): exactly-once drops
 fn check_drops() -> Result<(), String> {
     for id in 0..256usize {
         let c = CREATED[id].load(Ordering::SeqCst);
         let d = DROPS[id].load(Ordering::SeqCst);
         if c == 1 && d != 1 {
-            return Err(format!("C07: value {:#x} dropped {} times after the channel was dropped (leak / double drop)", id, d));
+            let p = if d > 1 && DROP_PREFIX_C06.load(Ordering::SeqCst) { "C06: a value that was sent once exists twice -" } else { "C07:" };
+            return Err(format!("{} value {:#x} dropped {} times after the channel was dropped (leak / double drop)", p, id, d));
         }
     }
     Ok(())
 }
+static DROP_PREFIX_C06: std::sync::atomic::AtomicBool = std::sync::atomic::AtomicBool::new(false);
 
 struct Val {
     call: usize,
